@@ -103,6 +103,8 @@ REQUIRED_COUNTERS = {
     "sat.elements": 50000,
     "sat.branch_neighbours": 500,
     "reject.cases": 60,
+    "reject.by_keyword": 10,
+    "sat.big_arrays": 6,
     "rh.exact": 200,
     "rh.float_elements": 5000,
     "lapse.elements": 5000,
@@ -1002,6 +1004,7 @@ def reject_inputs(rng):
     out = []
     for b in bad:
         out.append({"T": [b], "container": "py"})
+        out.append({"T": [b], "container": "py", "by_keyword": True})
         if isinstance(b, float):
             out.append({"T": [b], "container": "npfloat"})
             out.append({"T": [b], "container": "0d"})
@@ -1011,6 +1014,8 @@ def reject_inputs(rng):
             arr = [round(rng.uniform(100, 400), 3) for _ in range(n)]
             arr[pos] = b
             out.append({"T": arr, "container": "1d"})
+            if n == 5:
+                out.append({"T": arr, "container": "1d", "by_keyword": True})
             if n % 2 == 0 or n == 33:
                 out.append({"T": arr, "container": "2d"})
     return out
@@ -1039,7 +1044,11 @@ def check_reject(rec, case):
         rec.count("reject.cases")
         try:
             with np.errstate(all="ignore"):
-                out = fn(arg)
+                if case.get("by_keyword"):
+                    rec.count("reject.by_keyword")
+                    out = fn(T=arg)
+                else:
+                    out = fn(arg)
         except ValueError:
             rec.count("reject.valueerror")
             continue
@@ -1346,7 +1355,43 @@ def check_lapse(rec, case):
         rec.violation(_exc_key(exc, "lapse-exception", case), case, _exc_detail(exc))
 
 
-CHECKERS = {"exact": check_exact, "float": check_float, "sat": check_sat, "branch": check_sat,
+def check_big(rec, case):
+    """Input size: one array of more than a million temperatures, answered at once, against the same
+    function applied to pieces of 65536 elements (the functions are element-wise; 1e-12 leaves room
+    for vector / scalar loop differences of numpy)."""
+    atm = install_contracts(_mon["rec"])
+    n = int(np.prod(case["shape"]))
+    T = 150.0 + ((np.arange(n, dtype=float) * 0.6180339887498949) % 1.0) * 200.0
+    T = np.asarray(T.reshape(case["shape"]), order=case.get("order", "C"))
+    flat = T.ravel(order="K")
+    for name, tname in SAT_FUNCS.items():
+        fn = getattr(atm, tname)
+        o = _mon["orig"][tname]
+        rec.ev()
+        rec.count("sat.big_arrays")
+        with np.errstate(all="ignore"):
+            try:
+                got = np.asarray(fn(T))
+            except ContractBreach as exc:
+                rec.violation(exc.key, case, dict(exc.detail, function=name, elements=n))
+                continue
+            ref = np.concatenate([np.asarray(o(flat[i:i + 65536])) for i in range(0, n, 65536)])
+        if got.shape != T.shape:
+            rec.violation("saturation-large-array", case, {"function": name, "shape": list(got.shape),
+                                                          "want_shape": list(T.shape)})
+            continue
+        g = np.asarray(got, order=case.get("order", "C")).ravel(order="K")   # same element order as flat
+        bad = ~(np.abs(g - ref) <= 1e-12 * np.abs(ref))
+        if bad.any():
+            i = int(np.flatnonzero(bad)[0])
+            rec.violation("saturation-large-array", case,
+                          {"function": name, "elements": n, "first_bad_flat_index": i,
+                           "n_bad": int(bad.sum()), "T": float(flat[i]), "got": float(g[i]),
+                           "piecewise": float(ref[i])})
+    rec.nontriv(["big", case["shape"], case.get("order", "C")], case["shape"])
+
+
+CHECKERS = {"big": check_big, "exact": check_exact, "float": check_float, "sat": check_sat, "branch": check_sat,
             "reject": check_reject, "rh": check_rh, "lapse": check_lapse}
 
 
@@ -1381,6 +1426,9 @@ def run_shard(spec, rec):
             run_case(rec, dict(case, kind="reject"))
         for case in fixed_cases():
             run_case(rec, case)
+        for case in ({"kind": "big", "shape": [2 ** 20 + 12345]},
+                     {"kind": "big", "shape": [1031, 1025], "order": "F"}):
+            run_case(rec, case, shrink=False)
         return
     gen = {"exact": gen_exact_case, "float": gen_float_case, "sat": gen_sat_case,
            "branch": lambda r, n: gen_sat_case(r, n, branch=True),
